@@ -28,6 +28,8 @@
    effect (real ENOSPC in the middle of a write may). *)
 From Coq Require Import NArith List Bool.
 From DudV Require Import Base.Bytes Model.Fs Model.Cache Model.Crash Proofs.CacheDefs Proofs.CommitProofs Proofs.CrashProofs Proofs.NestedRetryProofs Proofs.CutRetryProofs.
+From Coq Require Import Relations.
+From DudV Require Import Base.Json Base.GoPath Model.Stage Model.Index Proofs.PipelineProofs Proofs.StageLiftProofs.
 Import ListNotations.
 
 Theorem C04_fail_is_cut :
@@ -131,3 +133,14 @@ Theorem C04_retry_from_cut :
                 cache_le cf cf1 /\ cache_le cf1 cf.
 Proof. exact C04_retry_from_cut. Qed.
 Print Assumptions C04_retry_from_cut.
+
+(* At the level of the COMMAND: an output that is not there - of any stage in scope, wherever it
+   comes among the stage's outputs and the stage among the targets - makes `dud commit` fail
+   (System.step then leaves the world as it was: StageLiftProofs.commit_step_failing_output_no_stage_write) *)
+Theorem C04_command_missing_output_fails :
+  forall (H : bytes -> bytes) st fuel ts idx0 root c t b stg a,
+    ksorted (map fst idx0) -> In t ts -> clos_refl_trans bytes (edge idx0) b t ->
+    alookup b idx0 = Some stg -> In a (s_outputs stg) -> get root (comps (a_path a)) = None ->
+    commit_targets H st fuel ts (Ok (mkI idx0 root c, [])) = Err.
+Proof. exact commit_targets_missing_output_fails. Qed.
+Print Assumptions C04_command_missing_output_fails.
